@@ -31,7 +31,7 @@ pub fn observe(inst: &mut Instance, uni: &Universe, depth: Depth) -> Obs {
     q(inst, &mut o, "rawHeaderByTag/latest".into(), "debug_getRawHeader", json!(["latest"]));
     q(inst, &mut o, "logsByTag/latest".into(), "eth_getLogs", json!([{"fromBlock": "latest", "toBlock": "latest"}]));
     q(inst, &mut o, "logsByTag/none".into(), "eth_getLogs", json!([{}]));
-    for h in 0..=uni.max_height + 1 {
+    for h in uni.from_height..=uni.max_height + 1 {
         let hx = format!("0x{:x}", h);
         q(inst, &mut o, format!("blockByNumber/{h}"), "eth_getBlockByNumber", json!([hx, false]));
         q(inst, &mut o, format!("blockByNumberFull/{h}"), "eth_getBlockByNumber", json!([hx, true]));
@@ -78,7 +78,7 @@ pub fn observe(inst: &mut Instance, uni: &Universe, depth: Depth) -> Obs {
         }
     }
     q(inst, &mut o, "txpool".into(), "txpool_content", json!([]));
-    let mut from = 0u64;
+    let mut from = uni.from_height;
     loop {
         let to = from + 5;
         q(
